@@ -158,7 +158,7 @@ RECURSIVE RunUnits(_, _, _, _, _, _, _)
 RunUnits(table, scripts, choices, msg, pos, prev, acc) ==
   IF pos > Len(msg) \/ acc.weird THEN acc ELSE
   LET u == DetectUnit(msg, pos) IN
-  IF ~u.valid \/ ~u.dataOk \/ u.incomplete \/ u.header.type \in IncompleteHeaderTypes
+  IF ~u.valid \/ (u.header.len > 0 /\ ~u.accepted) \/ u.incomplete
   THEN [acc EXCEPT !.weird = TRUE, !.weirdAt = pos]
   ELSE IF u.header.len = 0 THEN RunUnits(table, scripts, choices, msg, u.next, prev, acc)          \* empty unit
   ELSE LET hdr == Slice(msg, u.header.start, u.header.len)
